@@ -10,6 +10,20 @@ VERIF = os.path.dirname(os.path.dirname(os.path.abspath(__file__)))
 HOOK_COMMITS = []  # filled when source hooks are committed to /repo
 
 CHECKS = {
+    "C01": dict(
+        technique="runtime monitoring: sanitized library driven by scenarios "
+                  "from an independent physical (E-term) VNA model; offline "
+                  "oracle compares applied S-parameters with the device",
+        text="Random error networks of every type (1x1..4x4, 1x2, 2x1), "
+             "sufficient standard sets verified by an independent "
+             "identifiability test, entered through random add_* entry "
+             "points (full/abbreviated matrices, port maps, m and a/b, "
+             "const/scalar/vector parameters); solve + apply must return the "
+             "device within 1e-11(1+kappa). Observed executions only.",
+        note="trusted: numpy/LAPACK, the E-term signal-flow model; "
+             "ill-conditioned scenarios (kappa>1e4) regenerated/skipped and "
+             "counted",
+        design_ref="DESIGN.md section 2, C01"),
     "C04": dict(
         technique="runtime monitoring: sanitized library driven by generated "
                   "inputs; offline oracle = defining port relations (numpy)",
